@@ -73,7 +73,7 @@ class PrintUsingFormatter:
                 sharps += 1
                 real_sharps += 1
                 i += 1
-            elif fmt[i] == ',':
+            elif fmt[i] == ',' and 'decimal_point' not in options:
                 options['comma'] = True
                 sharps += 1
                 i += 1
